@@ -457,6 +457,14 @@ func (w *Worker) intrinsic(st *State, f *Frame, x ssa.Value, callee *ssa.Functio
 		set(w.mathUF1("mCos", math.Cos, args[0].(Term)))
 	case "math.Tan":
 		set(w.mathUF1("mTan", math.Tan, args[0].(Term)))
+	case "math.Signbit":
+		x := args[0].(Term)
+		if v, ok := x.fpVal(); ok {
+			set(mkBool(math.Signbit(v)))
+		} else {
+			// sign bit of the IEEE encoding; NaNs produced by the solver carry no sign, callers test NaN first
+			set(mkOr(app(SBool, "fp.isNegative", x), mkAnd(app(SBool, "fp.isNaN", x), mkBool(false))))
+		}
 	case "math.IsNaN":
 		set(fpIsNaN(args[0].(Term)))
 	case "math.Float64bits", "math.Float64frombits", "math.Inf", "math.NaN":
